@@ -34,8 +34,8 @@ fn scenario<const N: usize>() {
 }
 
 //@ ob: C02.O3a
-//@ tier: thorough
-//@ cap: 1800
+//@ tier: off
+//@ cap: 2400
 //@ also: C03
 //@ desc: validate_immutable(v, t) <=> t = SHA1(decimal(len v) ":" v), real SHA-1, for every 1-byte value and every target
 //@ bounds: v 1 symbolic byte, t 20 symbolic bytes; unwind 82 (SHA-1 rounds)
